@@ -376,6 +376,54 @@ def c15() -> List[M]:
     ]
 
 
+def c12() -> List[M]:
+    return [
+        M("C12", "voltage-scale-changed", S, "    value = int.from_bytes(buffer.read(2), byteorder=\"big\", signed=False)\n    return float(value) / 10 if value != 0xffff else 0\n\n\ndef encode_voltage",
+          "    value = int.from_bytes(buffer.read(2), byteorder=\"big\", signed=False)\n    return float(value) / 100 if value != 0xffff else 0\n\n\ndef encode_voltage", "C12.R1"),
+        M("C12", "bytes2-read-signed", S, "    value = int.from_bytes(buffer.read(2), byteorder=\"big\", signed=False)\n    return undef if value == 0xffff else value", "    value = int.from_bytes(buffer.read(2), byteorder=\"big\", signed=True)\n    return undef if value == 0xffff else value", "C12.R1"),
+        M("C12", "temp-sentinel-dropped", S, "    if value == -1 or value == 32767:", "    if value == -1:", "C12.R1"),
+        M("C12", "bytes4-signed-little-endian", S, "    return int.from_bytes(buffer.read(4), byteorder=\"big\", signed=True)", "    return int.from_bytes(buffer.read(4), byteorder=\"little\", signed=True)", "C12.R1"),
+        M("C12", "energy4w-scale-changed", S, "        return float(value) / 1000 if value is not None else None", "        return float(value) / 100 if value is not None else None", "C12.R1"),
+        M("C12", "freq-scale-changed", S, "    value = int.from_bytes(buffer.read(2), byteorder=\"big\", signed=True)\n    return float(value) / 100\n", "    value = int.from_bytes(buffer.read(2), byteorder=\"big\", signed=True)\n    return float(value) / 10\n", "C12.R1"),
+        M("C12", "integer-sentinel-becomes-none", S, "        return read_bytes2(data, None, 0)\n\n    def encode_value(self, value: Any, register_value: bytes = None) -> bytes:\n        return int.to_bytes(int(value), length=2, byteorder=\"big\", signed=False)",
+          "        return read_bytes2(data)\n\n    def encode_value(self, value: Any, register_value: bytes = None) -> bytes:\n        return int.to_bytes(int(value), length=2, byteorder=\"big\", signed=False)", "C12.R1"),
+        M("C12", "bytel-reads-high-byte", S, "    def read_value(self, data: ProtocolResponse):\n        read_byte(data)\n        return read_byte(data)\n\n    def encode_value", "    def read_value(self, data: ProtocolResponse):\n        return read_byte(data)\n\n    def encode_value", "C12.R1"),
+        M("C12", "ecomode-v1-fields-swapped", S, "        self.on_off = read_byte(data)\n        if self.on_off not in (0, -1):\n            raise ValueError(f\"{self.id_}: on_off value {self.on_off} out of range.\")\n        self.day_bits = read_byte(data)",
+          "        self.day_bits = read_byte(data)\n        self.on_off = read_byte(data)\n        if self.on_off not in (0, -1):\n            raise ValueError(f\"{self.id_}: on_off value {self.on_off} out of range.\")", "C12.R1"),
+        M("C12", "schedule-soc-read-unsigned-4", S, "        self.soc = read_bytes2_signed(data)", "        self.soc = read_bytes2(data, None, 0)", "C12.R1"),
+        M("C12", "sensor-read-without-seek", INV, "        data.seek(self.offset)\n        return self.read_value(data)", "        return self.read_value(data)", "C12.R2"),
+        M("C12", "power4-fixed-address", S, "    def read_value(self, data: ProtocolResponse):\n        return read_bytes4(data)\n", "    def read_value(self, data: ProtocolResponse):\n        return read_bytes4(data, 35105)\n", "C12.R2"),
+        M("C12", "bitmap4-no-seek", S, "        bits = read_bytes4_signed(data, self.offset)", "        bits = read_bytes4_signed(data)", "C12.R2"),
+        M("C12", "bitmap22-low-word-from-high-offset", S, "read_bytes2(data, self.offset, 0) << 16 + read_bytes2(data, self._offsetL, 0)", "read_bytes2(data, self.offset, 0) << 16 + read_bytes2(data, self.offset + 6, 0)", "C12.R2"),
+        M("C12", "rtu-offset-map-scale", P, "        return (address - self.first_address) * 2\n\n\nclass ModbusRtuReadCommand", "        return (address - self.first_address) * 4\n\n\nclass ModbusRtuReadCommand", "C12.R3"),
+        M("C12", "response-seek-raw-address", P, "            self._bytes.seek(self.command.get_offset(address))", "            self._bytes.seek(address)", "C12.R3"),
+        M("C12", "apparent4-reads-two-bytes", S, "    \"\"\"Sensor representing apparent power [VA] value encoded in 4 bytes\"\"\"\n\n    def __init__(self, id_: str, offset: int, name: str, kind: Optional[SensorKind]):\n        super().__init__(id_, offset, name, 2, \"VA\", kind)\n\n    def read_value(self, data: ProtocolResponse):\n        return read_bytes4_signed(data)",
+          "    \"\"\"Sensor representing apparent power [VA] value encoded in 4 bytes\"\"\"\n\n    def __init__(self, id_: str, offset: int, name: str, kind: Optional[SensorKind]):\n        super().__init__(id_, offset, name, 2, \"VA\", kind)\n\n    def read_value(self, data: ProtocolResponse):\n        return read_bytes2_signed(data)", "C12.R1|C12.R4"),
+        M("C12", "benign-voltage-conditional-flipped", S, "    value = int.from_bytes(buffer.read(2), byteorder=\"big\", signed=False)\n    return float(value) / 10 if value != 0xffff else 0\n\n\ndef encode_voltage",
+          "    value = int.from_bytes(buffer.read(2), byteorder=\"big\", signed=False)\n    if value == 0xffff:\n        return 0\n    return value / 10\n\n\ndef encode_voltage", "clean"),
+        M("C12", "benign-temp-sentinels-as-set", S, "    if value == -1 or value == 32767:", "    if value == 32767 or value == -1:", "clean"),
+    ]
+
+
+def c16() -> List[M]:
+    return [
+        M("C16", "revert-fix-apparent4-size", S, '        super().__init__(id_, offset, name, 4, "VA", kind)', '        super().__init__(id_, offset, name, 2, "VA", kind)', "C16.R1"),
+        M("C16", "revert-fix-sensor-map-cache", ET, "        self._sensors_map = {s.id_: s for s in self.sensors()}\n        return self._sensors_map.get(sensor_id)",
+          "        if self._sensors_map is None:\n            self._sensors_map = {s.id_: s for s in self.sensors()}\n        return self._sensors_map.get(sensor_id)", "C16.R3"),
+        M("C16", "dt-cache-only-when-empty", DT, "        self._sensors_map = {s.id_: s for s in self.sensors()}\n        return self._sensors_map.get(sensor_id)",
+          "        if not self._sensors_map:\n            self._sensors_map = {s.id_: s for s in self.sensors()}\n        return self._sensors_map.get(sensor_id)", "C16.R3"),
+        M("C16", "et-count-rounds-down", ET, "            count = (sensor.size_ + (sensor.size_ % 2)) // 2", "            count = sensor.size_ // 2", "C16.R1"),
+        M("C16", "dt-single-read-next-register", DT, "self._read_command(setting.offset, count))\n            return setting.read_value(response)", "self._read_command(setting.offset + 1, count))\n            return setting.read_value(response)", "C16.R1"),
+        M("C16", "energy8-declared-4", S, '        super().__init__(id_, offset, name, 8, "kWh", kind)', '        super().__init__(id_, offset, name, 4, "kWh", kind)', "C16.R1"),
+        M("C16", "timestamp-declared-4", S, '        super().__init__(id_, offset, name, 6, "", kind)', '        super().__init__(id_, offset, name, 4, "", kind)', "C16.R1"),
+        M("C16", "dt-new-calculated-sensor", DT, '        Integer("rssi", 30172, "RSSI"),\n    )', '        Integer("rssi", 30172, "RSSI"),\n        Calculated("pgrid_total", lambda data: read_bytes4(data, 30127, 0), "Total", "W", Kind.AC),\n    )', "C16.R2"),
+        M("C16", "voltage-bulk-decoder-differs", S, "    def read_value(self, data: ProtocolResponse):\n        return read_voltage(data)\n",
+          "    def read_value(self, data: ProtocolResponse):\n        return read_voltage(data)\n\n    def read(self, data: ProtocolResponse):\n        return read_current_signed(data, self.offset)\n", "C16.R4"),
+        M("C16", "es-read-sensor-single", ES, "        data = await self.read_runtime_data()\n        return data[sensor_id]", "        return None", "C16.R4"),
+        M("C16", "benign-count-ceil-other-form", ET, "            count = (sensor.size_ + (sensor.size_ % 2)) // 2", "            count = (sensor.size_ + 1) // 2", "clean"),
+    ]
+
+
 def corpus() -> List[M]:
     out: List[M] = []
     for name, fn in sorted(globals().items()):
